@@ -49,7 +49,7 @@ def run(ctx):
     # a cancellation before every single step of TLC-simulated schedules of PacketScan, stepped through the real generator /
     # merger / sender goroutines by the gate director: a crash (send on a closed channel, double close) ends the harness process
     from checks import gate_common
-    n5, _ = gate_common.gate_replay(ctx, [(3, 2, 60, 30), (2, 1, 0, 20)] if quick else [(3, 2, 300, 150), (4, 3, 100, 60), (2, 1, 50, 50), (5, 2, 0, 60)],
+    n5, _ = gate_common.gate_replay(ctx, [(3, 2, 60, 30), (2, 1, 0, 20)] if quick else [(3, 2, 1000, 400), (4, 3, 400, 200), (2, 1, 100, 100), (5, 2, 0, 200)],
                                     cancel_every=1, label="c12g")
     ctx.count(0, [("run", i) for i in range(n1 + n2 + n3 + n5)])
     # socket-level tier: SIGINT to the real binary mid-scan and during the exit delay; no run of any scenario may crash or hang
